@@ -173,9 +173,24 @@ func transition(cur ConnState, ev fsmEvent) (ConnState, bool) {
 	return cur, false
 }
 
-// State returns the current logical E37 state via a lock-free atomic read.
+// closedStateWord is the internal terminal value step() stores into state once evClose has been
+// processed. It is not a ConnState: State() reports it as NotConnectedState. Its purpose is to make
+// every synchronous commit CAS (CommitConnected / CommitSelected / CommitSelectLost) fail by
+// construction after Close — their expected old values are all real states — so a transport
+// bring-up goroutine that was descheduled across Close (an Accept or dial completing late) can no
+// longer move a closed connection to NotSelected. The closed latch alone cannot stop those commits:
+// it only guards step(), and the commits write state directly.
+const closedStateWord = ^uint32(0)
+
+// State returns the current logical E37 state via a lock-free atomic read. A closed supervisor
+// (see closedStateWord) reports NotConnectedState.
 func (s *supervisor) State() ConnState {
-	return ConnState(s.state.Load())
+	v := s.state.Load()
+	if v == closedStateWord {
+		return NotConnectedState
+	}
+
+	return ConnState(v)
 }
 
 // CommitConnected performs the synchronous TCP-up commit (symmetric with CommitSelected / §7.D):
@@ -326,6 +341,9 @@ func (s *supervisor) step(ev fsmEvent) {
 	if ev == evClose {
 		// Latch closed (I2) BEFORE teardown: no event queued behind this evClose may move state again.
 		s.closed = true
+		// Seal the state word: from here on no synchronous commit CAS can succeed (closedStateWord),
+		// so State() stays NotConnected after Close whatever a late transport bring-up does.
+		s.state.Store(closedStateWord)
 		if e := s.closeEpoch.Load(); e != nil {
 			e.teardown(s.resolveCloseTimeout())
 		}
